@@ -75,3 +75,14 @@ m("c17-json-merge-order", "C17", "monitor/format_json.py", '        data.update(
 m("c17-json-time-after-data", "C17", "monitor/format_json.py", '        data.update(args)\n        return json.dumps(data)', '        data.update(args)\n        if self._add_time:\n            data["time"] = self.formatTime(record, self.datefmt)\n        return json.dumps(data)')
 m("c17-quote-again", "C17", "monitor/format_line.py", '"%s=%s" % (_escape_key(key), _escape_field(value))\n', '("%s=%s" % (_escape_key(key), _escape_field(value))).replace("\'", \'"\')\n')
 m("c17-ts-round-nearest", "C17", "monitor/format_line.py", "record.created // self._resolution * self._resolution", "round(record.created / self._resolution) * self._resolution")
+# ---- C19
+m("c19-list-front-to-back", "C19", "daemon/config/mapping.py",
+  "                return list(\n                    reversed(\n                        [\n                            self.translate_hierarchy(\n                                item, where=\"%s[%s]\" % (where, index)\n                            )\n                            for index, item in reversed(list(enumerate(structure)))\n                        ]\n                    )\n                )",
+  "                return [\n                    self.translate_hierarchy(item, where=\"%s[%s]\" % (where, index))\n                    for index, item in enumerate(structure)\n                ]")
+m("c19-where-no-index", "C19", "daemon/config/mapping.py", 'item, where="%s[%s]" % (where, index)\n                            )', 'item, where="%s[]" % (where,)\n                            )')
+m("c19-outer-where-overwrites", "C19", "daemon/config/mapping.py", "            if err.where is None:\n                raise ConfigurationError(what=err.what, where=where) from err\n            raise", "            raise ConfigurationError(what=err.what, where=where) from err")
+m("c19-args-as-one", "C19", "daemon/config/mapping.py", "return factory(*args, **mapping)", "return factory(args, **mapping) if len(args) > 2 else factory(*args, **mapping)")
+m("c19-parent-before-children", "C19", "daemon/config/mapping.py",
+  "                structure = {\n                    key: self.translate_hierarchy(value, where=\"%s.%s\" % (where, key))\n                    for key, value in structure.items()\n                }\n                if \"__type__\" in structure:\n                    return self.construct(structure, **construct_kwargs)\n                return structure",
+  "                if \"__type__\" in structure and not any(isinstance(v, (dict, list)) for v in structure.values()):\n                    return self.construct(structure, **construct_kwargs)\n                structure = {\n                    key: self.translate_hierarchy(value, where=\"%s.%s\" % (where, key))\n                    for key, value in reversed(list(structure.items()))\n                }\n                if \"__type__\" in structure:\n                    return self.construct(structure, **construct_kwargs)\n                return structure")
+m("c19-attr-error-no-where", "C19", "daemon/config/mapping.py", "                        raise ConfigurationError(\n                            what=\"no such object %r\" % absolute_name\n                        ) from err", "                        raise ConfigurationError(\n                            what=\"no such object %r\" % absolute_name, where=absolute_name\n                        ) from err")
